@@ -14,14 +14,61 @@ pub struct Token(pub usize);
 pub struct Ready(u8);
 
 impl Ready {
+    pub fn empty() -> Ready {
+        Ready(0)
+    }
     pub fn readable() -> Ready {
         Ready(1)
     }
     pub fn writable() -> Ready {
         Ready(2)
     }
+    pub fn all() -> Ready {
+        Ready(3)
+    }
+    pub fn is_empty(&self) -> bool {
+        self.0 == 0
+    }
     pub fn is_readable(&self) -> bool {
         self.0 & 1 != 0
+    }
+    pub fn is_writable(&self) -> bool {
+        self.0 & 2 != 0
+    }
+    pub fn contains(&self, other: Ready) -> bool {
+        self.0 & other.0 == other.0
+    }
+    pub fn insert(&mut self, other: Ready) {
+        self.0 |= other.0
+    }
+    pub fn remove(&mut self, other: Ready) {
+        self.0 &= !other.0
+    }
+}
+
+impl std::ops::BitOr for Ready {
+    type Output = Ready;
+    fn bitor(self, o: Ready) -> Ready {
+        Ready(self.0 | o.0)
+    }
+}
+
+impl std::ops::BitAnd for Ready {
+    type Output = Ready;
+    fn bitand(self, o: Ready) -> Ready {
+        Ready(self.0 & o.0)
+    }
+}
+
+impl From<usize> for Token {
+    fn from(v: usize) -> Token {
+        Token(v)
+    }
+}
+
+impl From<Token> for usize {
+    fn from(t: Token) -> usize {
+        t.0
     }
 }
 
@@ -29,11 +76,33 @@ impl Ready {
 pub struct PollOpt(u8);
 
 impl PollOpt {
+    pub fn empty() -> PollOpt {
+        PollOpt(0)
+    }
     pub fn edge() -> PollOpt {
         PollOpt(1)
     }
     pub fn level() -> PollOpt {
         PollOpt(2)
+    }
+    pub fn oneshot() -> PollOpt {
+        PollOpt(4)
+    }
+    pub fn is_edge(&self) -> bool {
+        self.0 & 1 != 0
+    }
+    pub fn is_level(&self) -> bool {
+        self.0 & 2 != 0
+    }
+    pub fn is_oneshot(&self) -> bool {
+        self.0 & 4 != 0
+    }
+}
+
+impl std::ops::BitOr for PollOpt {
+    type Output = PollOpt;
+    fn bitor(self, o: PollOpt) -> PollOpt {
+        PollOpt(self.0 | o.0)
     }
 }
 
@@ -69,6 +138,15 @@ impl Events {
     pub fn is_empty(&self) -> bool {
         self.inner.is_empty()
     }
+    pub fn capacity(&self) -> usize {
+        self.cap
+    }
+    pub fn clear(&mut self) {
+        self.inner.clear()
+    }
+    pub fn get(&self, idx: usize) -> Option<Event> {
+        self.inner.get(idx).copied()
+    }
 }
 
 pub struct EventsIter<'a> {
@@ -102,11 +180,34 @@ impl Poll {
         Ok(Poll { id: dsim::with(|w| w.poll_new()) })
     }
 
-    pub fn register<E: ?Sized + Evented>(&self, handle: &E, token: Token, _interest: Ready, opts: PollOpt) -> io::Result<()> {
-        assert_eq!(opts, PollOpt::edge(), "the mio stand-in models edge-triggered registration only");
+    pub fn register<E: ?Sized + Evented>(&self, handle: &E, token: Token, interest: Ready, opts: PollOpt) -> io::Result<()> {
         dsim::yield_point(dsim::Op::Small);
-        dsim::with(|w| w.poll_register(self.id, handle.source(), token.0));
+        // (a registration without read interest never reports anything here: the stand-in has
+        // no notion of writability, every simulated send completes at once)
+        if interest.is_readable() {
+            dsim::with(|w| w.poll_register_opts(self.id, handle.source(), token.0, opts.is_level() && !opts.is_edge(), opts.is_oneshot()));
+        }
         Ok(())
+    }
+
+    pub fn reregister<E: ?Sized + Evented>(&self, handle: &E, token: Token, interest: Ready, opts: PollOpt) -> io::Result<()> {
+        dsim::yield_point(dsim::Op::Small);
+        if interest.is_readable() {
+            dsim::with(|w| w.poll_reregister(self.id, handle.source(), token.0, opts.is_level() && !opts.is_edge(), opts.is_oneshot()));
+        } else {
+            dsim::with(|w| w.poll_deregister(self.id, handle.source()));
+        }
+        Ok(())
+    }
+
+    pub fn deregister<E: ?Sized + Evented>(&self, handle: &E) -> io::Result<()> {
+        dsim::yield_point(dsim::Op::Small);
+        dsim::with(|w| w.poll_deregister(self.id, handle.source()));
+        Ok(())
+    }
+
+    pub fn poll_interruptible(&self, events: &mut Events, timeout: Option<Duration>) -> io::Result<usize> {
+        self.poll(events, timeout)
     }
 
     pub fn poll(&self, events: &mut Events, timeout: Option<Duration>) -> io::Result<usize> {
@@ -124,6 +225,25 @@ pub mod net {
 
     /// What `net2::UdpBuilder::bind` hands over to `UdpSocket::from_socket`.
     pub struct RawUdp(pub dsim::SockId);
+
+    /// the std-socket methods callers may use between `bind` and `from_socket`
+    impl RawUdp {
+        pub fn set_nonblocking(&self, _on: bool) -> io::Result<()> {
+            Ok(())
+        }
+        pub fn local_addr(&self) -> io::Result<SocketAddr> {
+            dsim::with(|w| w.socks[self.0].addr).ok_or_else(|| io::Error::new(io::ErrorKind::Other, "unbound"))
+        }
+        pub fn set_ttl(&self, _ttl: u32) -> io::Result<()> {
+            Ok(())
+        }
+        pub fn set_broadcast(&self, _on: bool) -> io::Result<()> {
+            Ok(())
+        }
+        pub fn take_error(&self) -> io::Result<Option<io::Error>> {
+            Ok(None)
+        }
+    }
 
     pub struct UdpSocket {
         id: dsim::SockId,
@@ -159,6 +279,26 @@ pub mod net {
         pub fn sim_id(&self) -> dsim::SockId {
             self.id
         }
+
+        // socket options: accepted and remembered as far as anything could observe them
+        pub fn set_ttl(&self, _ttl: u32) -> io::Result<()> {
+            Ok(())
+        }
+        pub fn ttl(&self) -> io::Result<u32> {
+            Ok(64)
+        }
+        pub fn set_broadcast(&self, _on: bool) -> io::Result<()> {
+            Ok(())
+        }
+        pub fn broadcast(&self) -> io::Result<bool> {
+            Ok(false)
+        }
+        pub fn only_v6(&self) -> io::Result<bool> {
+            Ok(false)
+        }
+        pub fn take_error(&self) -> io::Result<Option<io::Error>> {
+            Ok(None)
+        }
     }
 
     impl Drop for UdpSocket {
@@ -184,6 +324,18 @@ pub mod net {
     /// What `net2::TcpBuilder::listen` hands over to `TcpListener::from_std`.
     pub struct RawTcpListener(pub dsim::ListenId);
 
+    impl RawTcpListener {
+        pub fn set_nonblocking(&self, _on: bool) -> io::Result<()> {
+            Ok(())
+        }
+        pub fn local_addr(&self) -> io::Result<SocketAddr> {
+            Ok(dsim::with(|w| w.listeners[self.0].addr))
+        }
+        pub fn set_ttl(&self, _ttl: u32) -> io::Result<()> {
+            Ok(())
+        }
+    }
+
     impl TcpListener {
         pub fn from_std(raw: RawTcpListener) -> io::Result<TcpListener> {
             Ok(TcpListener { id: raw.0 })
@@ -204,6 +356,19 @@ pub mod net {
             dsim::yield_point(dsim::Op::Small);
             let (c, a) = dsim::with(|w| w.tcp_accept(self.id))?;
             Ok((TcpStream { id: c }, a))
+        }
+
+        pub fn local_addr(&self) -> io::Result<SocketAddr> {
+            Ok(dsim::with(|w| w.listeners[self.id].addr))
+        }
+        pub fn set_ttl(&self, _ttl: u32) -> io::Result<()> {
+            Ok(())
+        }
+        pub fn ttl(&self) -> io::Result<u32> {
+            Ok(64)
+        }
+        pub fn take_error(&self) -> io::Result<Option<io::Error>> {
+            Ok(None)
         }
     }
 
@@ -232,6 +397,51 @@ pub mod net {
             dsim::yield_point(dsim::Op::Small);
             dsim::with(|w| w.tcp_shutdown(self.id));
             Ok(())
+        }
+        pub fn peer_addr(&self) -> io::Result<SocketAddr> {
+            Ok(dsim::with(|w| w.conns[self.id].src))
+        }
+        pub fn local_addr(&self) -> io::Result<SocketAddr> {
+            Ok(dsim::with(|w| w.conns[self.id].dst))
+        }
+        pub fn set_nodelay(&self, _on: bool) -> io::Result<()> {
+            Ok(())
+        }
+        pub fn nodelay(&self) -> io::Result<bool> {
+            Ok(false)
+        }
+        pub fn set_keepalive(&self, _d: Option<std::time::Duration>) -> io::Result<()> {
+            Ok(())
+        }
+        pub fn set_linger(&self, _d: Option<std::time::Duration>) -> io::Result<()> {
+            Ok(())
+        }
+        pub fn set_ttl(&self, _ttl: u32) -> io::Result<()> {
+            Ok(())
+        }
+        pub fn set_recv_buffer_size(&self, _n: usize) -> io::Result<()> {
+            Ok(())
+        }
+        pub fn set_send_buffer_size(&self, _n: usize) -> io::Result<()> {
+            Ok(())
+        }
+        pub fn take_error(&self) -> io::Result<Option<io::Error>> {
+            Ok(None)
+        }
+    }
+
+    /// The health-check clients of the simulation never send anything: a read finds no data.
+    impl io::Read for TcpStream {
+        fn read(&mut self, _buf: &mut [u8]) -> io::Result<usize> {
+            dsim::yield_point(dsim::Op::Small);
+            Err(io::Error::new(io::ErrorKind::WouldBlock, "Resource temporarily unavailable (os error 11)"))
+        }
+    }
+
+    impl Evented for TcpStream {
+        fn source(&self) -> dsim::Source {
+            // nothing ever becomes readable on a simulated health-check connection
+            dsim::Source::Never
         }
     }
 
